@@ -80,7 +80,7 @@ impl MarkdownEventsReader {
                             _ => {
                                 self.push_inline(
                                     DocumentInline::Str(text.to_string()),
-                                    self.to_line_range(range),
+                                    self.to_inline_line_range(range),
                                 );
                                 self.pop_inline();
                             }
@@ -101,7 +101,7 @@ impl MarkdownEventsReader {
                             text: text.to_string(),
                             inline_range: self.to_inline_range(range.clone()),
                         }),
-                        self.to_line_range(range),
+                        self.to_inline_line_range(range),
                     );
                     self.pop_inline();
                 }
@@ -112,7 +112,7 @@ impl MarkdownEventsReader {
                             content: cow_str.to_string(),
                             inline_range: self.to_inline_range(range.clone()),
                         }),
-                        self.to_line_range(range),
+                        self.to_inline_line_range(range),
                     );
                     self.pop_inline();
                 }
@@ -121,7 +121,7 @@ impl MarkdownEventsReader {
                 InlineHtml(text) => {
                     self.push_inline(
                         DocumentInline::Str(text.to_string()),
-                        self.to_line_range(range),
+                        self.to_inline_line_range(range),
                     );
                     self.pop_inline();
                 }
@@ -132,7 +132,7 @@ impl MarkdownEventsReader {
                     if self.inline_in_block {
                         self.push_inline(
                             DocumentInline::Str(" ".to_string()),
-                            self.to_line_range(range),
+                            self.to_inline_line_range(range),
                         );
                         self.pop_inline();
                     }
@@ -264,7 +264,7 @@ impl MarkdownEventsReader {
                         inlines: vec![],
                         inline_range: self.to_inline_range(range.clone()),
                     }),
-                    self.to_line_range(range),
+                    self.to_inline_line_range(range),
                 );
             }
             Tag::Strong => {
@@ -273,7 +273,7 @@ impl MarkdownEventsReader {
                         inlines: vec![],
                         inline_range: self.to_inline_range(range.clone()),
                     }),
-                    self.to_line_range(range),
+                    self.to_inline_line_range(range),
                 );
             }
             Tag::Strikethrough => {
@@ -282,7 +282,7 @@ impl MarkdownEventsReader {
                         inlines: vec![],
                         inline_range: self.to_inline_range(range.clone()),
                     }),
-                    self.to_line_range(range),
+                    self.to_inline_line_range(range),
                 );
             }
             Tag::Link {
@@ -303,7 +303,7 @@ impl MarkdownEventsReader {
                         inline_range: self.to_inline_range(range.clone()),
                         link_type: to_link_type(link_type),
                     }),
-                    self.to_line_range(range),
+                    self.to_inline_line_range(range),
                 );
             }
             Tag::Image {
@@ -319,7 +319,7 @@ impl MarkdownEventsReader {
                         attr: Default::default(),
                         inline_range: self.to_inline_range(range.clone()),
                     }),
-                    self.to_line_range(range),
+                    self.to_inline_line_range(range),
                 );
             }
             Tag::MetadataBlock(_) => self.metadata_block = true,
@@ -393,6 +393,15 @@ impl MarkdownEventsReader {
         self.line_starts
             .partition_point(|&line_start| line_start <= offset)
             .saturating_sub(1)
+    }
+
+    // the lines an inline stands on, from its first to its last byte (an inline that ends in the
+    // middle of a line, like a link that runs over a line break, covers that line too)
+    fn to_inline_line_range(&self, range: Range<usize>) -> LineRange {
+        let start = self.line_of(range.start);
+        let last_byte = range.end.saturating_sub(1).max(range.start);
+
+        start..self.line_of(last_byte) + 1
     }
 
     fn to_line_range(&self, range: Range<usize>) -> LineRange {
